@@ -36,7 +36,7 @@ package updog
 //@ guarded [C04] LRUCache.entries,lruList,curSize by mtx exclusive
 
 //@ func [C07,C04,C03] (*LRUCache).Get(c, key) (bm, found) inherits Cache.Get
-//@   requires LRUInv(c)
+//@   requires LRUInv(c) && c.mtx.held == 0
 //@   modifies c.lruList.stamp; c.lruList.clock; c.metrics.GetCall.count; c.metrics.CacheHit.count; c.metrics.CacheMiss.count
 //@   ensures [C07] inv: LRUInv(c)
 //@   ensures [C07] hit_iff_stored: found <==> (key in old(c.entries))
@@ -55,7 +55,7 @@ package updog
 //@ pure oldcost(c *LRUCache, key uint64) int := (key in c.entries) ? costmap()[c.entries[key]] : 0
 
 //@ func [C07,C04,C03] (*LRUCache).Put(c, key, bm) inherits Cache.Put
-//@   requires LRUInv(c) && bm != nil
+//@   requires LRUInv(c) && bm != nil && c.mtx.held == 0
 //@   assumes nowrap: c.curSize + newcost(bm) <= 18446744073709551615
 //@   modifies c.entries[*]; c.curSize; c.lruList.members; c.lruList.stamp; c.lruList.clock; c.metrics.PutCall.count
 //@   modifies heap lruCacheItem.bm at ((key in c.entries) ? item(c.entries[key]) : nil)
@@ -98,7 +98,7 @@ package updog
 // Cache interface (C03/C04): closed world of cache implementations — nullCache and LRUCache.
 
 //@ pred CacheValid(c Cache) := c != nil && (typeof(c) == ptrtag(LRUCache) || typeof(c) == ptrtag(nullCache))
-//@   && (typeof(c) == ptrtag(LRUCache) ==> LRUInv(c.(*LRUCache)))
+//@   && (typeof(c) == ptrtag(LRUCache) ==> LRUInv(c.(*LRUCache)) && c.(*LRUCache).mtx.held == 0)
 
 //@ interface Cache.Get(c, key) (bm, found)
 //@   requires CacheValid(c)
